@@ -58,7 +58,7 @@ def run(ctx, cases, oracle=None, shard=200, compare=True):
                 v = dict(v)
                 v["case"] = describe(case, obs)
                 res["violations"].append(v)
-        if compare and ctx.get("model_ok", True):
+        if compare and ctx.get("model_ok", True) and not case.get("nocompare"):
             t = stack.to_scase(case, obs)
             if t is None:
                 res["notes"].append("case %d not expressible as scase (reply not one JSON line)" % i)
